@@ -1036,6 +1036,49 @@ func constLiteralReentry(p *Prog, e *Edge) (bool, string) {
 	if len(caseConsts) == 0 {
 		return false, ""
 	}
+	// a constant string passed directly as the dispatch parameter of a self-call: the case constants must be
+	// compared against something computed from that very parameter
+	if e.Callee == e.Caller {
+		for i, a := range e.Site.Common().Args {
+			c, ok := a.(*ssa.Const)
+			if !ok || c.Value == nil || c.Value.Kind() != constant.String || i >= len(e.Caller.Params) {
+				continue
+			}
+			el := constant.StringVal(c.Value)
+			head := el
+			if j := strings.IndexAny(el, ":"); j >= 0 {
+				head = el[:j]
+			}
+			par := e.Caller.Params[i]
+			selects, dispatchOnParam := false, true
+			for _, b := range e.Caller.Blocks {
+				iff, ok := b.Instrs[len(b.Instrs)-1].(*ssa.If)
+				if !ok {
+					continue
+				}
+				bo, ok := iff.Cond.(*ssa.BinOp)
+				if !ok || bo.Op != token.EQL {
+					continue
+				}
+				cc, ok := bo.Y.(*ssa.Const)
+				if !ok || cc.Value == nil || cc.Value.Kind() != constant.String {
+					continue
+				}
+				if !(b.Succs[0].Dominates(sb) && len(b.Succs[0].Preds) == 1) {
+					continue
+				}
+				if !computedFromParam(bo.X, par, 0) {
+					dispatchOnParam = false
+				}
+				if s := constant.StringVal(cc.Value); s == head || s == el {
+					selects = true
+				}
+			}
+			if dispatchOnParam && !selects {
+				return true, fmt.Sprintf("self-call with the constant %q for parameter %s under case %q, which that constant does not select", el, par.Name(), caseConsts)
+			}
+		}
+	}
 	for _, a := range e.Site.Common().Args {
 		var sl *ssa.Slice
 		switch x := a.(type) {
@@ -1098,6 +1141,35 @@ func constLiteralReentry(p *Prog, e *Edge) (bool, string) {
 		}
 	}
 	return false, ""
+}
+
+// computedFromParam: v is computed from the parameter only (loads, indexing, strings.Split/SplitN/Cut/TrimPrefix of it).
+func computedFromParam(v ssa.Value, par *ssa.Parameter, depth int) bool {
+	if depth > 8 {
+		return false
+	}
+	switch x := v.(type) {
+	case *ssa.Parameter:
+		return x == par
+	case *ssa.UnOp:
+		return computedFromParam(x.X, par, depth+1)
+	case *ssa.IndexAddr:
+		return computedFromParam(x.X, par, depth+1)
+	case *ssa.Index:
+		return computedFromParam(x.X, par, depth+1)
+	case *ssa.Slice:
+		return computedFromParam(x.X, par, depth+1)
+	case *ssa.Extract:
+		return computedFromParam(x.Tuple, par, depth+1)
+	case *ssa.Call:
+		if f := x.Call.StaticCallee(); f != nil && f.Pkg != nil && f.Pkg.Pkg.Path() == "strings" {
+			switch f.Name() {
+			case "Split", "SplitN", "Cut", "TrimPrefix", "TrimSuffix":
+				return computedFromParam(x.Call.Args[0], par, depth+1)
+			}
+		}
+	}
+	return false
 }
 
 // subComponents groups the remaining edges by the cycles they lie on (SCCs of the graph they
